@@ -202,9 +202,11 @@ def run(ctx):
     gcfg = ctx.cfg(gt)
     gf = ctx.facts(gt)
     rs = [n for n in gcfg.live_nodes() if n.kind == "stmt" and isinstance(n.ast, ast.Raise)]
-    conds = sorted(t for r in rs for t, tv in gf.at(r) if tv and "len(self._vtz)" in t)
+    conds = set(t for r in rs for t, tv in gf.at(r) if tv and "len(self._vtz)" in t)
+    none0 = any(("len(self._vtz) == 0", True) in gf.at(r) or ("self._vtz", False) in gf.at(r) for r in rs)
+    many = any(("len(self._vtz) > 1", True) in gf.at(r) or ("len(self._vtz) >= 2", True) in gf.at(r) for r in rs)
     ctx.ob("C17.GET", gt, "get() without a name raises ValueError when no zone or more than one zone is defined", len(rs) == 2 and all(src(r.ast.exc).startswith("ValueError") for r in rs)
-           and conds == ["len(self._vtz) == 0", "len(self._vtz) > 1"] and all(("tzid is None", True) in gf.at(r) for r in rs), construct="get() guards", detail=str(conds))
+           and none0 and many and all(("tzid is None", True) in gf.at(r) for r in rs), construct="get() guards", detail=str(sorted(conds)))
     pick = [n for n in gcfg.live_nodes() if n.kind == "stmt" and src(n.ast) == "tzid = next(iter(self._vtz))"]
     ctx.ob("C17.GET", gt, "the single zone is returned without naming it", len(pick) == 1 and "return self._vtz.get(tzid)" in src(gt.node), construct="single zone")
 
